@@ -35,13 +35,16 @@ import typing
 import corpus
 from run import Broken, Infra, Violation
 
-GEN = ["Schema", "SerialState"]
+GEN = ["Schema", "SerialState", "SerialSites"]
 RULE = ("cases = type-directed instances of every registered dataclass (strict: every field from its hint; loose: "
         "+tuples/sets/foreign objects/mistyped fields), strings and dict keys drawn from the marker vocabulary "
         "(_type,_bytes,_bytesio,class names,base64 text); + results and units of the extractors on all fixtures and "
         "generated XLSX workbooks; + serialised documents with one injected fault; + CLI payloads; + process histories in fresh "
         "process states (per concrete class: its stored JSON restored after serialising / restoring unrelated, related and same-class "
-        "objects, failing from_json calls, repeated calls, unit serialisation, CLI runs; every include_binary order; CLI flag permutations). "
+        "objects, failing from_json calls, repeated calls, unit serialisation, CLI runs; every include_binary order; CLI flag permutations); "
+        "+ the real cli.main under all four flag combinations on generated inputs (mbox / zip / tar with 1-3 results, each with none / one / several / "
+        "equal / empty binary payloads; equal results); + consumption histories (objects whose several streams hold equal bytes restored 2-3 times, "
+        "every stream read / closed / read through the interface after all were collected, restored again in between, every restored object re-observed). "
         "distinct = distinct encoded value; non-trivial = value contains a container, a binary leaf or a nested instance")
 ASSUMPTIONS = [
     "json.loads(json.dumps(j)) == j for plain data (None/bool/int/float/str/list/dict with str keys): CPython's json, "
@@ -54,11 +57,16 @@ ASSUMPTIONS = [
     "openpyxl (read_only, data_only) hands cells over as None/bool/int/float/str/datetime/date/time/timedelta (Cell universe of the model; "
     "anything else is covered by the `other` constructor)",
     "dataclasses.fields order, typing.get_type_hints, dict insertion order, str(key) are CPython's",
+    "restored streams: the caller reads, rewinds and closes them (no write / truncate); sharing of lists / dicts / nested instances between restored "
+    "objects is judged by the oracle only (identity walk + demonstrated effect), not modelled in Lean",
     "process histories: state that could make the round trip history-dependent lives in the inventoried kinds of cells (module-level "
     "containers / globals of serialization.py and cli.py, caches, mutable defaults, attribute stores in the path functions); anything else "
     "is only exercised by the fresh-process histories, not proved absent",
 ]
 TRUSTED = ["tools/gen/serial.py (registry/fields/hints/defaults/__post_init__ -> Lean schema)",
+           "tools/gen/serial_sites.py (returned expressions of the deserialiser's path, stream constructor sites, module-level objects, mentions of the "
+           "flag-taking serialisers in cli.py -> Lean inventory)",
+           "harness/builders/c14docs.py + the e-mail / mbox / zip / tar writers in harness/props/c05.py (generated inputs)",
            "tools/gen/serial_state.py (state cells of the serialisation path and their classified mentions -> Lean inventory)",
            "harness/workers/c05_history.py (fork-based fresh process states: the state right after importing the package stands for a fresh interpreter)",
            "model of _serialize_for_json/_deserialize_value/_deserialize_dataclass in S2T/Model/Serial.lean (tied by this correspondence)"]
@@ -367,6 +375,216 @@ def xlsx_bytes(rows):
     return bio.getvalue()
 
 
+# ----------------------------------------------------------------------------------------------- generated input files
+# A generated input is described by a spec (plain JSON, stored in replays):
+#   {"k": "eml", "subject": s, "atts": [[filename, hex payload], ...]}
+#   {"k": "mbox", "mails": [eml spec, ...]}
+#   {"k": "doc", "fmt": "docx"|"xlsx"|"odt"|"pptx", "spec": <builders/c14docs spec>}      a document carrying pictures
+#   {"k": "txt", "text": s}
+#   {"k": "zip"|"tar", "members": [[member name, spec], ...]}
+# The facets are varied independently: number of results (1 / several: mails of an mbox, members of an archive),
+# binary payloads per result (none / one / several), equal payloads (inside one result, across results), empty payloads.
+_EXT = {"eml": "eml", "mbox": "mbox", "txt": "txt", "zip": "zip", "tar": "tar"}
+_DOC_MEDIA = {"docx": ("word/media/", "media/"), "pptx": ("ppt/media/", "../media/"), "xlsx": ("xl/media/", "../media/"),
+              "odt": ("Pictures/", "Pictures/")}
+_PAYLOADS = ["", "00017061796c6f61642d6f6e65" * 3, "fffe7061796c6f61642d74776f" * 2, "89504e470d0a1a0a00"]
+
+
+def doc_spec(fmt, tails):
+    """a document with one picture per unit; equal tails = the same picture stored as separate parts"""
+    pre, ref = _DOC_MEDIA[fmt]
+    media, units = {}, []
+    for i, t in enumerate(tails):
+        media[f"{pre}i{i}.png"] = {"kind": "png", "w": 3, "h": 4, "tail": t}
+        units.append([{"t": "embed", "part": f"{pre}i{i}.png", "ref": f"{ref}i{i}.png"}])
+    return {"k": "doc", "fmt": fmt, "spec": {"fmt": fmt, "media": media, "units": units or [[]]}}
+
+
+def _eml_spec(i, atts):
+    return {"k": "eml", "subject": f"mail {i}", "atts": [list(a) for a in atts]}
+
+
+def _eml_bytes(spec):
+    bnd = "=_s2t_c05_boundary"
+    head = (f"From: alice@example.org\nTo: bob@example.org\nSubject: {spec.get('subject', 'mail')}\n"
+            "Date: Mon, 01 Jan 2024 10:00:00 +0000\nMIME-Version: 1.0\n")
+    body = f"body of {spec.get('subject', 'mail')}\n"
+    if not spec.get("atts"):
+        return (head + 'Content-Type: text/plain; charset="utf-8"\n\n' + body).encode()
+    parts = ['Content-Type: text/plain; charset="utf-8"\n\n' + body]
+    for name, hx in spec["atts"]:
+        b64 = base64.encodebytes(bytes.fromhex(hx)).decode()
+        parts.append(f'Content-Type: application/octet-stream\nContent-Transfer-Encoding: base64\n'
+                     f'Content-Disposition: attachment; filename="{name}"\n\n{b64}')
+    text = head + f'Content-Type: multipart/mixed; boundary="{bnd}"\n\n' + "".join(f"--{bnd}\n{p}\n" for p in parts) + f"--{bnd}--\n"
+    return text.encode()
+
+
+def build_input(spec):
+    """(file name, bytes) of a generated input"""
+    k = spec["k"]
+    if k == "eml":
+        data = _eml_bytes(spec)
+    elif k == "mbox":
+        data = b"".join(b"From alice@example.org Mon Jan  1 10:00:00 2024\n" + _eml_bytes(m) + b"\n" for m in spec["mails"])
+    elif k == "txt":
+        data = spec.get("text", "").encode()
+    elif k == "doc":
+        from builders import c14docs
+        data = c14docs.build(spec["spec"])
+    elif k == "zip":
+        import zipfile
+        bio = io.BytesIO()
+        with zipfile.ZipFile(bio, "w", zipfile.ZIP_DEFLATED) as z:
+            for name, m in spec["members"]:
+                z.writestr(zipfile.ZipInfo(name, date_time=(2024, 1, 1, 10, 0, 0)), build_input(m)[1])
+        data = bio.getvalue()
+    elif k == "tar":
+        import tarfile
+        bio = io.BytesIO()
+        with tarfile.open(fileobj=bio, mode="w") as t:
+            for name, m in spec["members"]:
+                d = build_input(m)[1]
+                ti = tarfile.TarInfo(name)
+                ti.size = len(d)
+                t.addfile(ti, io.BytesIO(d))
+        data = bio.getvalue()
+    else:
+        raise ValueError(k)
+    return spec.get("name") or ("gen." + (spec["fmt"] if k == "doc" else _EXT[k])), data
+
+
+def _input_text(spec):
+    """one line a reader can follow"""
+    k = spec["k"]
+    if k == "eml":
+        return "eml(" + ", ".join(f"{n}:{len(h) // 2}B#{_PAYLOADS.index(h) if h in _PAYLOADS else 'x'}" for n, h in spec.get("atts", [])) + ")"
+    if k == "mbox":
+        return "mbox[" + ", ".join(_input_text(m) for m in spec["mails"]) + "]"
+    if k == "doc":
+        return f"{spec['fmt']}({len(spec['spec']['media'])} pictures)"
+    if k in ("zip", "tar"):
+        return k + "[" + ", ".join(f"{n}={_input_text(m)}" for n, m in spec["members"]) + "]"
+    return k
+
+
+def core_inputs():
+    """the facet corners, on every run"""
+    p1, p2 = _PAYLOADS[1], _PAYLOADS[2]
+    t = "00ff10"
+    return [
+        {"k": "mbox", "mails": [_eml_spec(1, [["a.bin", p1]]), _eml_spec(2, [["b.bin", p2]])]},            # several results, each a payload
+        {"k": "mbox", "mails": [_eml_spec(1, [["a.bin", p1]]), _eml_spec(2, [["a.bin", p1]])]},            # the same file in two results
+        _eml_spec(3, [["report.bin", p1], ["report-copy.bin", p1]]),                                       # the same file twice in one result
+        {"k": "zip", "members": [["m1.eml", _eml_spec(4, [["x.bin", p2]])], ["d.docx", doc_spec("docx", [t, t])]]},
+        {"k": "tar", "members": [["s.xlsx", doc_spec("xlsx", [t])], ["n.txt", {"k": "txt", "text": "plain text member"}]]},
+        doc_spec("docx", [t, t]),                                                                          # the same picture twice
+        {"k": "mbox", "mails": [_eml_spec(5, []), _eml_spec(6, [["e.bin", ""], ["f.bin", p2], ["g.bin", ""]])]},   # none / empty payloads
+        {"k": "zip", "members": [["a.odt", doc_spec("odt", [t])], ["b.odt", doc_spec("odt", [t])], ["c.pptx", doc_spec("pptx", [t, "aa"])]]},
+        {"k": "mbox", "mails": [_eml_spec(7, [["same.bin", p1]]), _eml_spec(7, [["same.bin", p1]]), _eml_spec(7, [])]},   # EQUAL results (the same mail twice)
+    ]
+
+
+def gen_input_specs(rng, n):
+    out = core_inputs()
+    for i in range(n):
+        def mail(j):
+            return _eml_spec(j, [[f"f{q}.bin", rng.choice(_PAYLOADS)] for q in range(rng.choice([0, 1, 1, 2, 3]))])
+
+        def doc():
+            return doc_spec(rng.choice(sorted(_DOC_MEDIA)), [rng.choice(["00ff10", "aa", ""]) for _ in range(rng.choice([0, 1, 2, 2]))])
+        kind = rng.choice(["mbox", "mbox", "zip", "tar", "eml", "doc"])
+        if kind == "mbox":
+            out.append({"k": "mbox", "mails": [mail(j) for j in range(rng.choice([1, 2, 2, 3]))]})
+        elif kind in ("zip", "tar"):
+            ms = []
+            for j in range(rng.choice([1, 2, 2, 3])):
+                m = rng.choice([mail(j), doc(), {"k": "txt", "text": f"member {j}"}])
+                ms.append([f"m{j}." + (m["fmt"] if m["k"] == "doc" else _EXT[m["k"]]), m])
+            out.append({"k": kind, "members": ms})
+        elif kind == "eml":
+            out.append(mail(i))
+        else:
+            out.append(doc())
+    return out
+
+
+def input_path(spec):
+    """the file of a generated input.  Its place is a function of the spec (results carry the path of the file in their
+    metadata: the harness, the history worker and a replay must see the same one); written once, atomically."""
+    import hashlib
+    name, data = build_input(spec)
+    d = os.path.join(tempfile.gettempdir(), "s2t_c05_inputs", hashlib.sha1(json.dumps(spec, sort_keys=True).encode()).hexdigest()[:16])
+    path = os.path.join(d, name)
+    if not os.path.exists(path):
+        os.makedirs(d, exist_ok=True)
+        tmp = f"{path}.{os.getpid()}.tmp"
+        with open(tmp, "wb") as fh:
+            fh.write(data)
+        os.replace(tmp, path)
+    return path
+
+
+def _input_results(spec, limit_s=60):
+    """results of the library on a generated input, read the way the CLI reads it (from a file)"""
+    import sharepoint2text
+    path = input_path(spec)
+    r = corpus.run_extractor(lambda _b, p: sharepoint2text.read_file(p), b"", path=path, limit_s=limit_s)
+    return r[1] if r[0] == "ok" else []
+
+
+def _stream_leaves(x, path=()):
+    """[(path, io.BytesIO)] of a Python value, dataclass fields / list / dict order"""
+    out = []
+    if isinstance(x, io.BytesIO):
+        out.append((path, x))
+    elif dataclasses.is_dataclass(x) and not isinstance(x, type):
+        for f in dataclasses.fields(x):
+            out += _stream_leaves(getattr(x, f.name, None), path + (f.name,))
+    elif isinstance(x, dict):
+        for k, v in x.items():
+            out += _stream_leaves(v, path + (str(k),))
+    elif isinstance(x, (list, tuple, set, frozenset)):
+        for i, v in enumerate(x):
+            out += _stream_leaves(v, path + (i,))
+    return out
+
+
+def _api_streams(x):
+    """[(what, stream)] the way a caller gets at image / attachment bytes: get_bytes() of every image, .data of every attachment"""
+    out = []
+    if hasattr(x, "iterate_images"):
+        try:
+            for i, im in enumerate(x.iterate_images()):
+                out.append((f"image {i}", im.get_bytes()))
+        except Exception:
+            pass
+    for i, a in enumerate(getattr(x, "attachments", None) or []):
+        if isinstance(getattr(a, "data", None), io.BytesIO):
+            out.append((f"attachment {i}", a.data))
+    return out
+
+
+def with_equal_payloads(x, rng):
+    """a copy of x in which several (all, if there are only two) io.BytesIO leaves hold the SAME bytes — as separate stream
+    objects, like the same file attached twice; None if x has no stream"""
+    try:
+        y = copy.deepcopy(x)
+    except Exception:
+        return None
+    ls = _stream_leaves(y)
+    if not ls:
+        return None
+    payload = rng.choice([s.getvalue() for _, s in ls] + [b"", b"\x00same\xff" * 3])
+    chosen = ls if len(ls) <= 2 else rng.sample(ls, rng.randrange(2, len(ls) + 1))
+    for _, s in chosen:
+        s.seek(0)
+        s.truncate(0)
+        s.write(payload)
+        s.seek(rng.choice([0, 0, len(payload)]))
+    return y
+
+
 def cell_values(rng, n):
     base = [None, True, False, 0, 7, -3, 2 ** 40, 1.5, -0.0, 1e300, "", "text", "_type", "_bytes", "aGk=", " pad ",
             datetime.datetime(2021, 3, 4, 5, 6, 7), datetime.datetime(1999, 12, 31, 23, 59, 59, 123456), datetime.date(2020, 2, 29),
@@ -629,7 +847,7 @@ def _related(reg):
     return rel
 
 
-def gen_histories(ctx, rng, pool, fixture_cases, per_class, extra, n_fixture, repeats=12, pairs=30, n_cli=5):
+def gen_histories(ctx, rng, pool, fixture_cases, per_class, extra, n_fixture, repeats=12, pairs=30, n_cli=5, n_consume=0, n_cli_gen=0):
     """[(history for the worker, model ops, meta)].  A history = a prefix of library calls (serialising / restoring
     OTHER objects, related and unrelated, with and without binary, failing from_json calls, CLI runs, unit
     serialisation) followed by the calls under judgement on a target object: from_json of the JSON another
@@ -817,6 +1035,131 @@ def gen_histories(ctx, rng, pool, fixture_cases, per_class, extra, n_fixture, re
         ops = [{"op": "cli", "flags": f, "fixture": fx} for f in order]
         ops.insert(rng.randrange(1, len(ops)), {"op": "cli", "flags": list(rng.choice(CLI_FLAGS)), "fixture": rng.choice(cli_fx)})
         out.append(({"id": len(out), "objs": {}, "ops": ops}, [None] * len(ops), {"pattern": "cli-repeat", "target": fx}))
+    # the CLI on GENERATED inputs (several results x binary payloads x equal payloads): every flag combination, random order
+    specs = gen_input_specs(rng, max(0, n_cli_gen - len(core_inputs()))) if n_cli_gen else []
+    for spec in specs[:n_cli_gen]:
+        order = [list(f) for f in CLI_FLAGS]
+        rng.shuffle(order)
+        ops = [{"op": "cli", "flags": f, "input": spec} for f in order]
+        out.append(({"id": len(out), "objs": {}, "ops": ops}, [None] * len(ops), {"pattern": "cli-generated", "target": _input_text(spec)}))
+    # CONSUMPTION histories: the same / equal payloads restored several times, every stream consumed after all were
+    # collected, closed, read through the interface, restored again afterwards -- then every restored object re-observed
+    if n_consume:
+        cands = []          # (class name, object, spec)
+        for x in pool:
+            if _stream_leaves(x):
+                y = with_equal_payloads(x, rng)
+                if y is not None and rng.random() < 0.8:
+                    x = y
+                cands.append((type(x).__name__, x, {"value": enc(x)}))
+        rng.shuffle(cands)
+        cands.sort(key=lambda c: -min(2, len(_stream_leaves(c[1]))))        # objects with several streams first
+        cands = cands[:max(4, n_consume // 2)]
+        for spec in core_inputs() + gen_input_specs(rng, 4)[len(core_inputs()):]:
+            try:
+                rs = _input_results(spec)
+            except Exception:
+                rs = []
+            for i, r in enumerate(rs):
+                if _stream_leaves(r) and len(json.dumps(enc(r))) < 150_000:
+                    cands.append((type(r).__name__, r, {"input": spec, "index": i}))
+        for n in range(n_consume):
+            cname, x, spec = cands[n % len(cands)] if cands else (None, None, None)
+            if x is None:
+                break
+            nleaf = len(_stream_leaves(x))
+            J = _stored(x)
+            objs = {"o1": spec}
+            ops, mops, hops = [], [], []
+            ys = []
+
+            def restore(via):
+                name = f"y{len(ys)}"
+                if via == "stored" or not ys:
+                    ops.append({"op": "from_json", "stored": "o1", "src": "o1", "as": name})
+                else:
+                    ops.append({"op": "to_json", "obj": "o1", "bin": None, "label": "t" + name})
+                    mops.append({"k": "ser", "bin": True, "v": enc(x)})
+                    hops.append(None)
+                    ops.append({"op": "from_json", "of": "t" + name, "src": "o1", "as": name})
+                mops.append({"k": "deser", "j": enc(J)})
+                hops.append({"k": "deser", "id": len(ys), "j": enc(J)})
+                ys.append(name)
+
+            def use(yi, how, leaf=None):
+                ops.append({"op": "use", "y": ys[yi], "how": how, "leaf": leaf})
+                mops.append(None)
+                hops.append({"k": "use", "step": yi, "how": how, "leaf": leaf})
+
+            def observe(yi):
+                ops.append({"op": "observe", "y": ys[yi]})
+                mops.append(None)
+                hops.append({"k": "observe", "step": yi})
+
+            pattern = ["collect-consume", "close-one", "interleave", "api", "random", "leafwise"][n % 6]
+            if pattern == "collect-consume":
+                for _ in range(rng.choice([2, 2, 3])):
+                    restore(rng.choice(["stored", "own"]))
+                for yi in range(len(ys)):
+                    use(yi, "read")
+            elif pattern == "close-one":
+                restore("stored")
+                restore(rng.choice(["stored", "own"]))
+                use(0, "close", rng.choice([None, 0]))
+                observe(1)
+                restore("stored")
+                use(1, "read")
+                use(2, "read")
+            elif pattern == "interleave":
+                restore("stored")
+                use(0, "read")
+                restore(rng.choice(["stored", "own"]))
+                use(1, "read")
+                use(0, "read")
+            elif pattern == "api":
+                restore("stored")
+                restore("stored")
+                use(0, "api-read")
+                use(1, "api-read")
+            elif pattern == "leafwise":
+                restore("stored")
+                restore("own")
+                pairs_ = [(yi, li) for yi in range(2) for li in range(nleaf)]
+                rng.shuffle(pairs_)
+                for yi, li in pairs_[:8]:
+                    use(yi, rng.choice(["read", "read", "close"]), li)
+            else:
+                for _ in range(rng.choice([2, 3])):
+                    restore(rng.choice(["stored", "own"]))
+                for _ in range(rng.randrange(2, 6)):
+                    use(rng.randrange(len(ys)), rng.choice(["read", "read", "close"]), rng.choice([None, 0, nleaf - 1]))
+            for yi in range(len(ys)):
+                observe(yi)
+            H = {"id": len(out), "objs": objs, "ops": ops}
+            out.append((H, mops, {"pattern": "consume-" + pattern, "target": cname, "heap": hops}))
+        # TEMPORARY objects: a caller looping over files builds a result, serialises it and drops it; the next one (same class,
+        # payloads of the SAME LENGTH but other bytes) is likely to live at the same addresses -- whatever the serialiser
+        # remembers per object identity shows here
+        streamy = [c for c in cands if "value" in c[2]]
+        for n in range(max(2, n_consume // 8)):
+            if not streamy:
+                break
+            cname, x, _ = streamy[n % len(streamy)]
+            objs, ops, mops = {}, [], []
+            for k in range(rng.choice([3, 4, 6])):
+                y = copy.deepcopy(x)
+                for _, st in _stream_leaves(y):
+                    data = bytes((b + 1 + 7 * k) % 256 for b in st.getvalue())
+                    st.seek(0)
+                    st.write(data)
+                    st.seek(0)
+                objs[f"o{k + 1}"] = {"value": enc(y)}
+                for _ in range(rng.choice([1, 1, 2])):
+                    b = rng.choice([None, None, False])
+                    ops.append({"op": "to_json", "obj": f"o{k + 1}", "bin": b, "temp": True})
+                    mops.append({"k": "ser", "bin": b is not False, "v": enc(y)})
+            H = {"id": len(out), "objs": objs, "ops": ops}
+            out.append((H, mops, {"pattern": "temp-objects", "target": cname}))
     return out
 
 
@@ -825,17 +1168,22 @@ def _history_text(H):
     parts = []
     for op in H["ops"]:
         spec = H["objs"].get(op.get("obj") or op.get("src") or "", {})
-        what = spec.get("fixture") or (spec.get("value") or ["", "?"])[1] if spec else ""
+        what = spec.get("fixture") or (_input_text(spec["input"]) + f"[{spec.get('index', 0)}]" if "input" in spec else (spec.get("value") or ["", "?"])[1]) if spec else ""
         if spec.get("unit") is not None:
             what = f"{what}#unit{spec['unit']}"
         if op["op"] == "to_json":
-            parts.append(f"to_json({what}" + (", include_binary=False)" if op.get("bin") is False else ")"))
+            parts.append(f"to_json({'a temporary ' if op.get('temp') else ''}{what}" + (", include_binary=False)" if op.get("bin") is False else ")"))
         elif op["op"] == "from_json":
-            parts.append(f"from_json({'its JSON' if 'of' in op else 'stored JSON of'} {what})")
+            parts.append((f"{op['as']} = " if op.get("as") else "") + f"from_json({'its JSON' if 'of' in op else 'stored JSON of'} {what})")
         elif op["op"] == "from_json_bad":
             parts.append("from_json(malformed document)")
         elif op["op"] == "cli":
-            parts.append(f"cli {' '.join(op['flags'])} {op['fixture']}")
+            parts.append(f"cli {' '.join(op['flags'])} {op.get('fixture') or _input_text(op['input'])}")
+        elif op["op"] == "use":
+            leaf = "every stream" if op.get("leaf") is None else f"stream {op['leaf']}"
+            parts.append(f"{ {'read': 'read()', 'close': 'close()', 'api-read': 'get_bytes().read() /.data.read() of'}[op['how']] } {leaf} of {op['y']}")
+        elif op["op"] == "observe":
+            parts.append(f"{op['y']}.to_json()")
         else:
             parts.append(f"{op['op']}({what})")
     return " ; ".join(parts)
@@ -852,6 +1200,8 @@ def _shrink_history(H, keys, budget=10):
                 break
             lab = cur["ops"][i].get("label")
             if lab and any(o.get("of") == lab for o in cur["ops"]):
+                continue
+            if cur["ops"][i].get("as") and any(o.get("y") == cur["ops"][i]["as"] for o in cur["ops"]):
                 continue
             cand = dict(cur, ops=cur["ops"][:i] + cur["ops"][i + 1:])
             used = {o.get("obj") for o in cand["ops"]} | {o.get("src") for o in cand["ops"]}
@@ -938,8 +1288,45 @@ def history_correspondence(ctx, gen, results, broken):
                 broken.append(Broken("correspondence", "c05.hist",
                                      f"history [{_history_text(H)}] step {k} {what}: impl={json.dumps(s)[:300]} model={json.dumps(mo)[:300]}",
                                      case={"source": "history", "history": H}))
-    ctx.coverage["history_mismatches"] = mism
+    # consumption histories against the heap machine of S2T/Model/SerialHeap.lean (driver op c05.heap)
+    hidx = [i for i, (_, _, meta) in enumerate(gen) if meta.get("heap")]
+    houts = pdrive(ctx, [{"op": "c05.heap", "ops": [h if h is not None else {"k": "skip"} for h in gen[i][2]["heap"]]} for i in hidx])
+    hm = 0
+    for i, o in zip(hidx, houts):
+        H, _, meta = gen[i]
+        res = results[i]
+        if "crash" in res:
+            continue
+        if "drv_error" in o:
+            broken.append(Broken("correspondence", "driver", o["drv_error"][:300], case={"source": "history"}))
+            continue
+        # the heap ops are aligned with the ops that are not to_json (a to_json op carries None)
+        bad = None
+        for k, (op, hop, s, mo) in enumerate(zip(H["ops"], meta["heap"], res["steps"], o.get("outs", []))):
+            if hop is None:
+                continue
+            ctx.count(f"heap/{hop['k']}" + ("/" + hop["how"] if hop["k"] == "use" else ""))
+            if hop["k"] == "deser":
+                if "unmodelled" in mo:
+                    break
+                if s.get("ok") != mo.get("ok") or s.get("err") != mo.get("err"):
+                    bad = bad or (k, "from_json", s, mo)
+            elif hop["k"] == "use" and hop["how"] != "api-read":
+                if s.get("reads") != mo.get("reads"):
+                    bad = bad or (k, f"{hop['how']} streams", s, mo)
+            elif hop["k"] == "observe":
+                if s.get("j") != mo.get("j") or s.get("err") != mo.get("err"):
+                    bad = bad or (k, "to_json of a restored object", s, mo)
+        if bad:
+            hm += 1
+            k, what, s, mo = bad
+            if len(broken) < 12:
+                broken.append(Broken("correspondence", "c05.heap",
+                                     f"history [{_history_text(H)}] step {k} {what}: impl={json.dumps(s)[:300]} model={json.dumps(mo)[:300]}",
+                                     case={"source": "history", "history": H}))
+    ctx.coverage["history_mismatches"] = mism + hm
     ctx.coverage["histories"] = len(gen)
+    ctx.coverage["consumption_histories"] = len(hidx)
 
 
 # =============================================================================================== correspondence
@@ -1042,7 +1429,8 @@ def correspondence(ctx):
     hgen = gen_histories(ctx, hrng, [x for tag, _, x in cases if tag == "strict"],
                          [(d, x) for tag, d, x in cases if tag == "fixture"],
                          per_class=ctx.n(1, 6), extra=ctx.n(40, 400), n_fixture=ctx.n(24, 150),
-                         repeats=ctx.n(12, 100), pairs=ctx.n(30, 1000), n_cli=ctx.n(5, 20))
+                         repeats=ctx.n(12, 100), pairs=ctx.n(30, 1000), n_cli=ctx.n(5, 20),
+                         n_consume=ctx.n(48, 300), n_cli_gen=ctx.n(10, 40))
     hrun = HistoryRun([h for h, _, _ in hgen], par=ctx.n(6, 12))
     reqs = [{"op": "c05.rt", "v": enc(x)} for _, _, x in cases]
     outs = pdrive(ctx, reqs)
@@ -1123,6 +1511,8 @@ def correspondence(ctx):
     for _ in range(ctx.n(100, 600)):
         k = rng.choice([0, 1, 1, 1, 2, 3])
         rs = [rng.choice(small if rng.random() < 0.5 else pool) for _ in range(k)]
+        if k >= 2 and rng.random() < 0.3:
+            rs[-1] = rs[0]                # equal results (the same file twice in an archive)
         b = rng.random() < 0.5
         unit = rng.random() < 0.5
         units = []
@@ -1147,6 +1537,39 @@ def correspondence(ctx):
             if len(broken) < 12:
                 broken.append(Broken("correspondence", "c05.cli", f"results={k} unit={unit} bin={b}: impl={json.dumps(got)[:200]} model={json.dumps(o)[:200]}",
                                      case={"source": "cli", "n": k, "unit": unit, "bin": b}))
+    # ---------- the real cli.main (argument parsing, read_file, payload shaping, json.dumps, stdout) on generated inputs:
+    # several results x binary payloads x equal payloads x every flag combination, against the model's payload and the oracle
+    reqs, impls = [], []
+    for spec in gen_input_specs(rng, ctx.n(6, 60)):
+        results, runs = _cli_on_input(spec)
+        if results is None:
+            ctx.count("cli-main/unreadable")
+            continue
+        try:
+            units = [list(r.iterate_units()) for r in results]
+        except Exception:
+            continue
+        for flags, rc, got, errtext in runs:
+            b, unit = "--binary" in flags, "--json-unit" in flags
+            try:
+                impl = enc(json.loads(got)) if rc == 0 else ["exit", rc]
+            except ValueError:
+                impl = ["not-json"]
+            reqs.append({"op": "c05.cli", "rs": [enc(r) for r in results], "units": [[enc(u) for u in us] for us in units], "bin": b, "unit": unit})
+            impls.append((spec, flags, len(results), impl))
+            for v in _judge_cli_output(flags, rc, got, errtext, results, {"cli": flags, "input": spec}):
+                v.what = f"on generated input {_input_text(spec)}: {v.what}"
+                if not any(o.key == v.key for o in violations):
+                    violations.append(v)
+    outs = pdrive(ctx, reqs)
+    for (spec, flags, k, impl), q, o in zip(impls, reqs, outs):
+        ctx.case(("cli-main", json.dumps(spec), flags))
+        ctx.count(f"cli-main/{'unit' if q['unit'] else 'result'}/{'binary' if q['bin'] else 'no-binary'}/{min(k, 2)}")
+        if impl != o.get("j"):
+            mism += 1
+            if len(broken) < 12:
+                broken.append(Broken("correspondence", "c05.cli.main", f"cli {' '.join(flags)} on {_input_text(spec)}: "
+                                     f"stdout={json.dumps(impl)[:200]} model={json.dumps(o)[:200]}", case={"source": "cli-main", "cli": flags, "input": spec}))
     ctx.coverage["mismatches"] = mism
     ctx.coverage["unmodelled_base64_cases"] = counters["unmodelled"]
     # ---------- (b') collect the histories: outcomes vs. the state machine, and the judge's findings
@@ -1342,6 +1765,142 @@ def _judge_rebuilt(x, y, j, text, add, known, out):
     return out
 
 
+_MUTABLE_NODES = (io.BytesIO, list, dict, set, bytearray)
+
+
+def _mutable_nodes(x, path=(), out=None, depth=0):
+    """[(path, node)] of every mutable object reachable from x (streams, containers, dataclass instances)"""
+    out = [] if out is None else out
+    if depth > 40:
+        return out
+    if isinstance(x, _MUTABLE_NODES):
+        out.append((path, x))
+    if dataclasses.is_dataclass(x) and not isinstance(x, type):
+        out.append((path, x))
+        for f in dataclasses.fields(x):
+            _mutable_nodes(getattr(x, f.name, None), path + (f.name,), out, depth + 1)
+    elif isinstance(x, dict):
+        for k, v in x.items():
+            _mutable_nodes(v, path + (str(k),), out, depth + 1)
+    elif isinstance(x, (list, tuple, set, frozenset)):
+        for i, v in enumerate(x):
+            _mutable_nodes(v, path + (i,), out, depth + 1)
+    return out
+
+
+def _shared_mutables(ys):
+    """ys = [(label, restored object)], each restored from its OWN freshly parsed JSON.  Messages for every mutable object
+    that stands in two places (of one restored object or of two), each with what a caller sees of it: the operation
+    through one place and the changed observation through the other."""
+    seen, msgs = {}, []
+    for label, y in ys:
+        for path, node in _mutable_nodes(y):
+            where = (label, y, path)
+            first = seen.setdefault(id(node), where)
+            if first is where:
+                continue
+            a = f"{type(first[1]).__name__}.{'.'.join(map(str, first[2]))} (restored at {first[0]})"
+            b = f"{type(y).__name__}.{'.'.join(map(str, path))} (restored at {label})"
+            demo = None
+            if isinstance(node, io.BytesIO):
+                try:
+                    node.seek(0)
+                    full = node.getvalue()
+                    node.read()                       # the holder of the first place consumes its stream
+                    got = node.read()                 # the holder of the second place reads "its" stream
+                    if got != full:
+                        demo = f"after read() through the first, read() through the second returns {len(got)} of {len(full)} bytes"
+                    else:
+                        node.close()
+                        try:
+                            _to_json(y)
+                        except ValueError as e:
+                            demo = f"after close() through the first, to_json() of the second raises ValueError: {e}"
+                except ValueError as e:
+                    demo = f"the stream is already closed: {e}"
+            else:
+                try:
+                    before = _canon_json(_to_json(y))
+                    undo = None
+                    if isinstance(node, list):
+                        node.append("<appended through the other object>")
+                        undo = node.pop
+                    elif isinstance(node, dict):
+                        node["<added through the other object>"] = 1
+                        undo = lambda: node.pop("<added through the other object>")   # noqa: E731
+                    elif dataclasses.is_dataclass(node):
+                        for f in dataclasses.fields(node):
+                            old = getattr(node, f.name)
+                            if isinstance(old, str):
+                                setattr(node, f.name, old + "<changed through the other object>")
+                                undo = lambda f=f, old=old: setattr(node, f.name, old)   # noqa: E731
+                                break
+                    if undo:
+                        after = _canon_json(_to_json(y))
+                        undo()
+                        if after != before:
+                            demo = "changing it through the first changes to_json() of the second"
+                except Exception:
+                    pass
+            if demo:
+                msgs.append(f"{a} and {b} are ONE {type(node).__name__} object: {demo}")
+    return msgs
+
+
+def _judge_independent(x, y1, text, add):
+    """The rebuilt object carries the same image / attachment bytes FOR A CALLER: every stream can be consumed after all were
+    collected, an object restored earlier or later from the same JSON text is unaffected by consuming / closing the streams
+    of another one, and restored objects share nothing mutable.  y1 = from_json(json.loads(text)) (already judged equal)."""
+    from sharepoint2text.parsing.extractors.data_types import ExtractionInterface
+    want = [(p, s.getvalue()) for p, s in _stream_leaves(x)]
+    y2 = ExtractionInterface.from_json(json.loads(text))
+    shared = _shared_mutables([("the first from_json", y1), ("a second from_json of the same text", y2)]) if not want else []
+    if want:
+        def consume(y, when):
+            ls = _stream_leaves(y)
+            if [p for p, _ in ls] != [p for p, _ in want]:
+                return
+            got = []
+            for _, s in ls:
+                try:
+                    got.append(s.read())
+                except ValueError:
+                    got.append("closed")
+            bad = [i for i, (g, (_, w)) in enumerate(zip(got, want)) if g != w]
+            if bad:
+                i = bad[0]
+                add("serial.restored-stream-short", f"{when}: read() of {'.'.join(map(str, want[i][0]))} returned "
+                    f"{got[i] if isinstance(got[i], str) else str(len(got[i])) + ' bytes'}, expected {len(want[i][1])} bytes")
+
+        api_want = [s.getvalue() for _, s in _api_streams(x)]
+        consume(y1, "streams of the rebuilt object read one after the other")
+        consume(y2, "an object restored from the same text before the first one was consumed")
+        y3 = ExtractionInterface.from_json(json.loads(text))
+        consume(y3, "an object restored from the same text after the first one was consumed")
+        y4 = ExtractionInterface.from_json(json.loads(text))
+        try:
+            api_got = [s.read() for _, s in _api_streams(y4)]
+        except ValueError:
+            api_got = ["closed"]
+        if api_got != api_want:
+            add("serial.restored-stream-short", f"image / attachment bytes read through get_bytes() / .data of a restored object: lengths "
+                f"{[g if isinstance(g, str) else len(g) for g in api_got]}, expected {[len(w) for w in api_want]}")
+        y5 = ExtractionInterface.from_json(json.loads(text))
+        shared = _shared_mutables([("one from_json", y4), ("another from_json of the same text", y5)])
+        for _, s in _stream_leaves(y1):
+            s.close()
+        y6 = ExtractionInterface.from_json(json.loads(text))
+        for y, when in ((y3, "restored before"), (y6, "restored after")):
+            try:
+                if _canon_json(_to_json(y)) != text:
+                    add("serial.restored-object-changed", f"to_json() of an object {when} the streams of another restored object were closed differs")
+            except Exception as e:  # noqa
+                add("serial.restored-object-broken", f"to_json() of an object {when} the streams of another restored object were closed raised "
+                    f"{type(e).__name__}: {e}")
+    for m in shared[:1]:
+        add("serial.restored-objects-share-state", m)
+
+
 def check_value(x, replay, judge_roundtrip=True):
     """The property statement on one result / unit / instance. Returns [Violation]."""
     from sharepoint2text.parsing.extractors import serialization as S
@@ -1383,6 +1942,11 @@ def check_value(x, replay, judge_roundtrip=True):
         add(known or "serial.from_json-raises", f"from_json(json.loads(json.dumps(to_json()))) raised {type(e).__name__}: {str(e)[:120]}")
         return out
     _judge_rebuilt(x, y, j, text, add, known, out)
+    if not known and not out:
+        try:
+            _judge_independent(x, y, text, add)
+        except Exception as e:  # noqa
+            add("serial.from_json-raises", f"restoring the same JSON text again raised {type(e).__name__}: {str(e)[:120]}")
     return out
 
 
@@ -1406,12 +1970,34 @@ def _judge_cli_output(flags, rc, got, errtext, results, replay):
         out.append(Violation("cli.json-fails", f"{' '.join(flags)} exits {rc}: {errtext[:120]}", replay))
         return out
     if got != exp_text + "\n":
-        out.append(Violation("cli.json-differs", f"{' '.join(flags)}: stdout is not the serialised results ({len(results)} result(s))", replay))
+        detail = ""
+        try:
+            if not b and any(m in got for m in ('"_bytes":', '"_bytesio":')) and not any(m in exp_text for m in ('"_bytes":', '"_bytesio":')):
+                detail = "; binary payloads are printed although --binary is absent"
+        except Exception:
+            pass
+        out.append(Violation("cli.json-differs", f"{' '.join(flags)}: stdout is not the serialised results ({len(results)} result(s)){detail}", replay))
         return out
     top = json.loads(got)
     want_obj = len(results) == 1 and "--json" in flags
     if want_obj != isinstance(top, dict):
         out.append(Violation("cli.json-shape", f"{' '.join(flags)}: {len(results)} result(s) but top-level is {type(top).__name__}", replay))
+        return out
+    if not b:
+        # without --binary exactly the binary fields of every printed result / unit are null (walked on the objects)
+        try:
+            xs = list(results) if "--json" in flags else [u for r in results for u in r.iterate_units()]
+            if "--json" in flags:
+                js = [top] if len(results) == 1 else top
+            else:
+                js = top if len(results) == 1 else [u for us in top for u in us]
+            for x, jn in zip(xs, js):
+                _judge_nobinary(x, S.serialize_extraction(x, include_binary=True), jn,
+                                lambda key, what: out.append(Violation("cli.binary-without-flag", f"{' '.join(flags)}: {type(x).__name__}: {what}", replay)))
+                if out:
+                    break
+        except Exception:
+            pass
     return out
 
 
@@ -1485,6 +2071,8 @@ def _run_desc(desc):
     if "xlsx_rows" in desc:
         r = corpus.run_extractor(xlsx_extractor.read_xlsx, xlsx_bytes(_xlsx_case(desc["xlsx_rows"])), path="gen.xlsx", limit_s=30)
         return r[1] if r[0] == "ok" else []
+    if "input" in desc:
+        return _input_results(desc["input"])
     return []
 
 
@@ -1561,6 +2149,8 @@ def search(ctx, broken):
                             add(check_value(u, dict(c["desc"], unit=True)))
                     except Exception:
                         pass
+            elif c.get("source") == "cli-main":
+                add(check_cli_inputs(ctx, [c["input"]]))
             elif c.get("value"):
                 x = dec(c["value"])
                 if c.get("source") in ("strict", "strict+marker-dicts") and dataclasses.is_dataclass(x):
@@ -1575,6 +2165,13 @@ def search(ctx, broken):
     rng = ctx.rng
     for x in instances(ctx, rng, ctx.n(6, 30), strict=True):
         add(check_value(x, {"value": enc(x)}))
+        if _stream_leaves(x):      # the same with equal payloads in several streams (the same file attached twice)
+            y = with_equal_payloads(x, rng)
+            if y is not None:
+                add(check_value(y, {"value": enc(y)}))
+    for spec in gen_input_specs(rng, ctx.n(20, 100)):      # results of the extractors on generated inputs
+        for i, r in enumerate(_input_results(spec)):
+            add(check_value(r, {"input": spec, "index": i}))
     res = extractor_results(ctx, max_size=ctx.n(400_000, 5_000_000), limit=ctx.n(45, 400))
     for desc, r in res:
         add(check_value(r, desc))
@@ -1600,7 +2197,8 @@ def search(ctx, broken):
         add(history_violations(hs, run_histories(hs)))
     pool = instances(ctx, rng, ctx.n(2, 6), strict=True)
     hgen = gen_histories(ctx, rng, pool, res[:40], per_class=ctx.n(2, 6), extra=ctx.n(60, 400), n_fixture=ctx.n(24, 100),
-                         repeats=ctx.n(24, 100), pairs=ctx.n(1000, 1000), n_cli=ctx.n(8, 20))
+                         repeats=ctx.n(24, 100), pairs=ctx.n(1000, 1000), n_cli=ctx.n(8, 20),
+                         n_consume=ctx.n(96, 400), n_cli_gen=ctx.n(20, 60))
     hl = [h for h, _, _ in hgen]
     add(history_violations(hl, run_histories(hl)))
     return out
@@ -1637,6 +2235,36 @@ def _cli_oracle(ctx):
         out += check_cli(prs, {"cli_fixture": True})
         ctx.count("cli-oracle/files", len(prs))
         ctx.count("cli-oracle/multi-result-files", sum(1 for _, r in prs if len(r) > 1))
+    # generated inputs: several results x binary payloads x equal payloads, every flag combination; concrete replays
+    out += check_cli_inputs(ctx, gen_input_specs(ctx.rng, ctx.n(30, 150)))
+    return out
+
+
+def _cli_on_input(spec, flags_list=None):
+    """[(flags, rc, stdout, stderr)] of the real CLI on a generated input, and the results of the library on that file"""
+    import sharepoint2text
+    path = input_path(spec)
+    r = corpus.run_extractor(lambda _b, p: sharepoint2text.read_file(p), b"", path=path, limit_s=60)
+    if r[0] != "ok":
+        return None, []
+    runs = [(list(flags),) + _run_cli(list(flags), path) for flags in (flags_list or CLI_FLAGS)]
+    return r[1], runs
+
+
+def check_cli_inputs(ctx, specs):
+    out = []
+    for spec in specs:
+        results, runs = _cli_on_input(spec)
+        if results is None:
+            ctx.count("cli-oracle/generated-unreadable")
+            continue
+        ctx.count("cli-oracle/generated/" + ("several" if len(results) > 1 else "one") + "-result/"
+                  + ("binary" if any(True for r in results for _ in _binary_positions(r)) else "no-binary"))
+        for flags, rc, got, errtext in runs:
+            for v in _judge_cli_output(flags, rc, got, errtext, results, {"cli": flags, "input": spec}):
+                v.what = f"on generated input {_input_text(spec)}: {v.what}"
+                if not any(o.key == v.key for o in out):
+                    out.append(v)
     return out
 
 
@@ -1681,9 +2309,15 @@ def replay(ctx, payload):
     elif "xls_header" in rep:
         from sharepoint2text.parsing.extractors.data_types import XlsContent
         vs = check_value(XlsContent(sheets=_xls_stub_sheet(rep["xls_header"], rep["xls_row"])), rep)
+    elif "cli" in rep and "input" in rep:
+        results, runs = _cli_on_input(rep["input"], [rep["cli"]])
+        if results is None:
+            return False, "the recorded generated input cannot be read on this tree"
+        for flags, rc, got, errtext in runs:
+            vs += _judge_cli_output(flags, rc, got, errtext, results, rep)
     elif "cli" in rep:
         vs = _cli_oracle(ctx)
-    elif "fixture" in rep or "xlsx_rows" in rep:
+    elif "fixture" in rep or "xlsx_rows" in rep or "input" in rep:
         for r in _run_desc(rep):
             vs += check_value(r, rep)
             try:
